@@ -11,6 +11,7 @@
   the specification's answer, and the model-vs-spec verdict.
 -/
 import Lmd.Render
+import Lmd.Passthrough
 import Driver.Ops
 import Driver.World
 
@@ -128,6 +129,73 @@ def cmdSession (f : Full) (j : Json) : Full × Json :=
     let (f, out) := runEvents j chunks events f []
     (f, Json.mkObj (base ++ [("events", .arr out.toArray)]))
 
+/-! ## pass-through tables (`Lmd.Passthrough`) -/
+
+def pkeyJson : PKey → Json
+  | .num m => Json.mkObj [("n", .num ⟨m, 0⟩)]
+  | .str s => Json.mkObj [("s", .str s)]
+  | .any => .str "*"
+
+def parsePTPeer (j : Json) : PTPeer :=
+  let reply := match (j.getObjVal? "reply").toOption with
+    | some (.arr rows) => some (rows.toList.map fun r => match r with | .arr cells => cells.toList | _ => [])
+    | _ => none
+  { id := jStr j "id", name := jStr j "name", online := jBool j "online", lastError := jStr j "last_error", reply := reply, err := jStr j "err" }
+
+def passthroughOp (st : State) (j : Json) : Json :=
+  let id := jNat j "id"
+  let base : List (String × Json) := [("id", .num ⟨(id : Int), 0⟩), ("op", .str "passthrough")]
+  match parseRequest st.schema { optimize := true, q := Quirks.current } (jStr j "text") with
+  | .error (.bad msg) => Json.mkObj (base ++ [("kind", .str "bad"), ("msg", .str msg)])
+  | .error (.unsupported why) => Json.mkObj (base ++ [("unsupported", .bool true), ("why", .str why)])
+  | .ok req =>
+    match st.schema.table? req.table with
+    | none => Json.mkObj (base ++ [("kind", .str "bad"), ("msg", .str "table")])
+    | some t =>
+      if !t.passthrough then Json.mkObj (base ++ [("unsupported", .bool true), ("why", .str "not a pass-through table")])
+      else
+        let all := (jArr j "peers").map parsePTPeer
+        let ids := all.map (·.id)
+        let unknown := req.backends.filter (fun b => !ids.contains b)
+        let peers := all.filter fun p => req.backends.isEmpty || req.backends.contains p.id
+        let unknownFailed := unknown.map fun b => (b, "bad request: backend " ++ b ++ " does not exist")
+        -- the 502 rule of NewResponse: every named backend failed before anything was asked
+        if req.outFmt != .wrapped && !unknownFailed.isEmpty && unknownFailed.eraseDups.length == req.backends.length then
+          Json.mkObj (base ++ [("kind", .str "error502")])
+        else
+          let plan := ptPlan t req
+          let sub := (subRequest req plan).print
+          let asked := Json.mkObj (all.map fun p => (p.id, Json.bool (peers.any (·.id == p.id) && p.online)))
+          let failedJson := fun (f : List (String × String)) => Json.mkObj ((f ++ unknownFailed).map fun (k, v) => (k, Json.str v))
+          let common : List (String × Json) := base ++ [("sub", .str (String.ofList (sub.toList.reverse.dropWhile (· == '\n')).reverse)), ("asked", asked),
+            ("header_row", .bool (req.stats.isEmpty && (req.colHeaders || req.columns.isEmpty)))]
+          if req.stats.isEmpty then
+            let d := ptData t req peers
+            let descs := (req.sort.filter (·.col.isSome)).map (·.desc)
+            -- is the window determined? (a Sort is given and no two rows tie on all keys, or nothing is cut and there are no ties)
+            let strict := (List.range d.keys.length).all fun i =>
+              match d.keys[i]?, d.keys[i+1]? with
+              | some a, some b => ptCmp (descs.zip (a.zip b)) == .lt
+              | _, _ => true
+            let sorted := !req.sort.isEmpty
+            let windowKeys := (match req.limit with
+              | some l => (if req.offset > d.total then [] else d.keys.drop req.offset).take l
+              | none => (if req.offset > d.total then [] else d.keys.drop req.offset))
+            Json.mkObj (common ++ [("kind", .str "data"), ("rows", .arr (d.rows.map (fun r => Json.arr r.toArray)).toArray),
+              ("keys", .arr (d.keys.map (fun k => Json.arr (k.map pkeyJson).toArray)).toArray),
+              ("window", .arr (d.window.map (fun r => Json.arr r.toArray)).toArray),
+              ("window_keys", .arr (windowKeys.map (fun k => Json.arr (k.map pkeyJson).toArray)).toArray),
+              ("total", .num ⟨(d.total : Int), 0⟩), ("sorted", .bool sorted), ("offset", .num ⟨(req.offset : Int), 0⟩),
+              ("limit", match req.limit with | some l => .num ⟨(l : Int), 0⟩ | none => .null), ("window_exact", .bool (sorted && strict)),
+              ("failed", failedJson d.failed)])
+          else
+            let s := ptStats t req peers
+            let rows := s.rows.map fun (k, accs) =>
+              Json.arr #[Json.arr (k.map Json.str).toArray, Json.arr (accs.map (fun a => let (n, d) := a.final; Json.arr #[.num ⟨n, 0⟩, .num ⟨((if a.kind == .counter then d else d * 1000 : Nat) : Int), 0⟩])).toArray]
+            Json.mkObj (common ++ [("kind", .str "stats"), ("stats", .arr rows.toArray), ("nkey", .num ⟨((requestColumns t req).length : Int), 0⟩),
+              ("kinds", .arr ((req.stats.map fun e => Json.str (match e.accKind with | .counter => "counter" | .sum => "sum" | .avg => "avg" | .min => "min" | .max => "max")).toArray)),
+              ("skipped", .num ⟨(s.skipped : Int), 0⟩), ("failed", failedJson s.failed)])
+
 partial def loop (h : IO.FS.Stream) (out : IO.FS.Stream) (f : Full) : IO Unit := do
   let line ← h.getLine
   if line.isEmpty then return ()
@@ -152,6 +220,10 @@ partial def loop (h : IO.FS.Stream) (out : IO.FS.Stream) (f : Full) : IO Unit :=
           out.flush
         | none => pure ()
         loop h out { st := st', ws := ws', clock := clock' }
+      else if op == "passthrough" then
+        out.putStrLn (Json.compress (passthroughOp f.st j))
+        out.flush
+        loop h out f
       else if op == "cmdsession" then
         let (f', r) := cmdSession f j
         out.putStrLn (Json.compress r)
